@@ -74,6 +74,10 @@ def base_spec(b, start):
     else:
         # long: work spread by the weekly limit over one or two year ends
         tasks = [T("a", b["long_effort_h"] * 60), T("b", 300, "r2", deps=[{"ref": "a", "gap": "1w"}])]
+    if b.get("sc2"):
+        # a second scenario with an own effort for the first task (both runs are parsed by the same parser object, one after the other)
+        spec["scenarios"] = [("plan", [("delayed", [])])]
+        tasks[0]["scen"] = [("delayed", f"effort {int(tasks[0]['effort'] * 1.5)}min")]
     spec["resources"] = [r1, r2] if b["lim"] != "gweekly" else [{"id": "grp", "limits": {"weeklymax": "6h"}, "children": [r1, r2]}]
     spec["tasks"] = tasks
     return spec
@@ -89,6 +93,8 @@ def bases(tier):
                 for mode in ("asap", "alap-end"):
                     for pin in (False, True):
                         out.append({"cal": cal, "lv": lv, "lim": lim, "mode": mode, "pin": pin, "dur": "3w"})
+                        if lv in ("none", "proj") and lim in ("none", "weekly") and not pin:
+                            out.append({"cal": cal, "lv": lv, "lim": lim, "mode": mode, "pin": pin, "dur": "3w", "sc2": True})
     return out
 
 
@@ -141,18 +147,21 @@ def evaluate(item):
     dk = timedelta(weeks=item["k"])
     v = []
     t1 = {t["id"]: t for t in o1["tasks"]}
-    for t in o0["tasks"]:
-        u = t1[t["id"]]
-        if t["sched"][0] != u["sched"][0]:
-            v.append(("shift-flag", f"{t['id']}: scheduled={t['sched'][0]} at start {item['start']} but {u['sched'][0]} {item['k']} weeks later"))
-            continue
-        if not t["sched"][0]:
-            continue
-        for which in ("start", "end"):
-            a, b = t[which][0], u[which][0]
-            if a is None or b is None or b - a != dk:
-                v.append(("shift-date", f"{t['id']}.{which}: {a} at project start {item['start']}, {b} after shifting everything by {item['k']} weeks "
-                                        f"(difference {b - a if a and b else None}, expected {dk})"))
+    if o0.get("nsc") != o1.get("nsc"):
+        v.append(("shift-scenarios", f"{o0.get('nsc')} scenarios at project start {item['start']}, {o1.get('nsc')} after the shift"))
+    for sc in range(min(o0.get("nsc", 1), o1.get("nsc", 1))):
+        for t in o0["tasks"]:
+            u = t1[t["id"]]
+            if t["sched"][sc] != u["sched"][sc]:
+                v.append(("shift-flag", f"{t['id']} (scenario {sc}): scheduled={t['sched'][sc]} at start {item['start']} but {u['sched'][sc]} {item['k']} weeks later"))
+                continue
+            if not t["sched"][sc]:
+                continue
+            for which in ("start", "end"):
+                a, b = t[which][sc], u[which][sc]
+                if a is None or b is None or b - a != dk:
+                    v.append(("shift-date", f"{t['id']}.{which} (scenario {sc}): {a} at project start {item['start']}, {b} after shifting everything by {item['k']} weeks "
+                                            f"(difference {b - a if a and b else None}, expected {dk})"))
     if o1["pend"] - o0["pend"] != dk:
         v.append(("shift-horizon", f"project end {o0['pend']} vs {o1['pend']}"))
     r["v"] = common.dedup(v)
